@@ -204,7 +204,17 @@ func (h *fasthttpHandler) readReqMsg(ctx *fasthttp.RequestCtx) *dnsmsg.Msg {
 
 		buf := bufPool.Get()
 		defer bufPool.Release(buf)
-		_, err := buf.ReadFrom(io.LimitReader(ctx.Request.BodyStream(), 65535))
+		body := ctx.Request.BodyStream()
+		if body == nil {
+			// fasthttp leaves the stream nil if the request has no body at all,
+			// e.g. a POST without Content-Length and Transfer-Encoding.
+			h.logger.Warn().
+				Object("request", (*fasthttpReqLoggerObj)(ctx)).
+				Msg("post request without body")
+			ctx.SetStatusCode(fasthttp.StatusBadRequest)
+			return nil
+		}
+		_, err := buf.ReadFrom(io.LimitReader(body, 65535))
 		if err != nil {
 			h.logger.Warn().
 				Object("request", (*fasthttpReqLoggerObj)(ctx)).
